@@ -306,16 +306,103 @@ def vouch_case(chk, i):
     return Verdict(HELD, name, obs=obs, nontrivial=nchk >= 1, key=name)
 
 
+def failing_assertions(ser):
+    """names of bindgen's layout assertions that rustc could not evaluate (the asserted number is clang's)"""
+    return set(re.findall(r'\["((?:Size|Alignment) of [^"]+|Offset of field: [^"]+)"\]', ser))
+
+
+def cxx_case(chk, i):
+    """C++ class graphs (bases, virtual methods, templates): making a class opaque must leave the layout of every class that uses it
+    (as base, member, array element, template argument) as it was; bindgen's own layout assertions carry clang's numbers, so
+    the oracle is differential: an assertion that evaluates in the unselected run must still evaluate with the selection."""
+    from .. import gen_graph
+    rng = chk.rng("cxx", i)
+    g = gen_graph.generate(rng, lang="cxx")
+    orders, _ = gen_graph.valid_orders(g, rng, 1)
+    if not orders:
+        return None
+    d = chk.dir("x%d" % (i % 32))
+    name = "cxx-%d" % i
+    text = gen_graph.render(g, orders[0], hoist=True)
+    hdr = write(os.path.join(d, "g%d.hpp" % i), text)
+    cargs = ["--", "-x", "c++", "-std=c++14"]
+
+    def gen_and_compile(tag, flags):
+        b = os.path.join(d, "b%d_%s.rs" % (i, tag))
+        rc, so, se, _ = sh([build.BINDGEN, hdr] + flags + ["-o", b] + cargs, timeout=120, cpu=100)
+        if rc != 0:
+            return None, None, "bindgen failed: " + se[-300:]
+        rcr, sor, ser, _ = sh(["rustc", "--edition", "2021", "--crate-type", "lib", "--emit=metadata", "-A", "warnings", "-o", os.path.join(d, "m%d_%s.rmeta" % (i, tag)), b], timeout=180)
+        return b, (rcr, ser), None
+    b0, r0, err = gen_and_compile("base", [])
+    if err:
+        return Verdict(INCONCLUSIVE, name, err)
+    f0 = failing_assertions(r0[1])
+    other0 = [m for m in re.findall(r"^error(?:\[E\d+\])?: ([^\n]*)", r0[1], re.M) if "aborting" not in m and "evaluation" not in m and "index out of bounds" not in m
+              and "attempt to compute" not in m]
+    classes = [n for n in g.classes() if n.kind == "class"]
+    if not classes:
+        return None
+    out = []
+    for s_ in range(chk.pick(2, 5)):
+        r = chk.rng("cxxsel", i, s_)
+        # prefer classes that others build on: bases first, then by-value members
+        used_as_base = [c for c in classes if any(c.name in o.bases for o in classes)]
+        used_by_value = [c for c in classes if any(c.name in o.needs_complete for o in g.nodes if o is not c)]
+        poly_bases = [c for c in used_as_base if c.attrs.get("virtual")]
+        pool = poly_bases * 6 + used_as_base * 3 + used_by_value * 2 + classes
+        chosen = sorted(set(x.name for x in r.sample(pool, min(len(pool), r.randint(1, 2)))))
+        flags = []
+        for c in chosen:
+            flags += ["--opaque-type", c]
+        cname = "%s-s%d" % (name, s_)
+        b1, r1, err = gen_and_compile("s%d" % s_, flags)
+        if err:
+            out.append(Verdict(INCONCLUSIVE, cname, err))
+            continue
+        files = {"header.hpp": text, "flags.txt": " ".join(flags), "bindings.rs": open(b1).read(), "bindings_unselected.rs": open(b0).read(), "rustc.txt": r1[1][-3000:]}
+        f1 = failing_assertions(r1[1])
+        new = sorted(f1 - f0)
+        obs = {"cxx_selections": 1, "cxx_opaque_classes": len(chosen), "cxx_assertions_in_unselected_run": len(set(re.findall(r'\["(?:Size|Alignment) of [^"]+"\]', open(b0).read()))),
+               "cxx_selection_hits_base": int(any(c in [x.name for x in used_as_base] for c in chosen)),
+               "cxx_selection_hits_virtual_class": int(any(g.by_name(c).attrs.get("virtual") for c in chosen))}
+        problems = []
+        if new:
+            problems.append("layout assertions that hold without the selection fail with --opaque-type %s: %s" % (chosen, new[:6]))
+        inv = htypes.inventory(b1)
+        if "error" not in inv:
+            for it in inv["items"]:
+                if it["kind"] in ("struct", "union") and it["name"] in chosen:
+                    bad = [f["name"] for f in it["fields"] if not (f["name"].startswith("_bindgen_opaque_blob") or f["name"] == "_address" or f["name"].startswith("_bindgen_align"))]
+                    if bad:
+                        problems.append("opaque class %s exposes fields %s" % (it["name"], bad))
+        if problems:
+            out.append(Verdict(VIOLATED, cname, "\n".join(problems), files=files, obs=obs))
+            continue
+        other1 = [m for m in re.findall(r"^error(?:\[E\d+\])?: ([^\n]*)", r1[1], re.M) if "aborting" not in m and "evaluation" not in m and "index out of bounds" not in m
+                  and "attempt to compute" not in m]
+        if r1[0] != 0 and len(other1) > len(other0):
+            # compile errors that are not layout assertions (derives through the opaque member etc.) are C01's / the recorded C07-C10 finding
+            out.append(Verdict(HELD, cname, obs=dict(obs, cxx_selections_with_unrelated_compile_errors=1)))
+            continue
+        out.append(Verdict(HELD, cname, obs=obs, nontrivial=obs["cxx_assertions_in_unselected_run"] >= 2, key=cname))
+    return out
+
+
 def run(chk):
     chk.map(lambda i: case(chk, i), range(chk.pick(40, 400)), budget_s=chk.pick(500, 3000))
     chk.map(lambda i: vouch_case(chk, i), range(chk.pick(40, 300)), budget_s=chk.pick(200, 900))
+    chk.map(lambda i: cxx_case(chk, i), range(chk.pick(60, 500)), budget_s=chk.pick(200, 900))
     return chk.finish(
         rule="case = (generated C type graph, selection) where a selection blocklists (by type or item pattern) and/or makes opaque a random "
              "subset of the named records (and enums) that other records use as members, array elements, pointees; the harness supplies "
              "`#[repr(C, align(A))] struct X([u8; S])` with clang's numbers for each blocklisted type. Non-trivial = the C+Rust probe ran. "
              "Oracle: no second definition of a blocklisted name, use sites still name it, without the user's definition rustc misses exactly "
              "those names, sizes/alignments of ALL records and member offsets/values of unaffected records equal C (H-TYPES probe), opaque "
-             "types expose only the blob (no fields, accessors, methods), direct containers of blocklisted types derive none of the nine traits.",
+             "types expose only the blob (no fields, accessors, methods), direct containers of blocklisted types derive none of the nine traits. "
+             "C++ case = (generated class graph with bases, virtual methods, templates; 1..2 classes made opaque, preferring bases and by-value "
+             "members of other classes): every layout assertion (clang's numbers) that evaluates without the selection must still evaluate "
+             "with it, and the opaque class exposes only its blob.",
         assumptions=["as C02", "vouching (ParseCallbacks::blocklisted_type_implements_trait => Yes for every trait) is exercised through vf-driver on "
                      "plain-data graphs: without vouching direct containers derive nothing, with it they derive what C08's specification gives "
                      "when the blocklisted member is treated as supporting everything"])
